@@ -9,7 +9,7 @@
    internals are outside (props/C10/NOTES.md). *)
 From Sdns Require Import Common.Base Gen.C10 C10.Model C10.ModelStream C10.ModelShare C10.ModelPool
   C10.Proofs_UdpBase C10.Proofs_UdpInv C10.Proofs_UdpThm C10.Proofs_Stream C10.Proofs_Read C10.Proofs_Share C10.Proofs_Top
-  C10.Proofs_Pool.
+  C10.Proofs_Pool C10.ModelChains C10.Proofs_Chains.
 Open Scope nat_scope.
 
 (* ties: the constants the proofs compute with are the source's *)
@@ -144,6 +144,14 @@ Theorem shared_lookup_isolated : forall res ids shared sched,
 Proof. exact shared_isolated. Qed.
 Print Assumptions shared_lookup_isolated.
 
+(* the stream side's limits are the source's: tcpJobBufSize (= dns.MaxMsgSize, evaluated from the
+   library constant), minTCPFrame, and the slab class boundary of largeClass (translated) *)
+Theorem source_constants_stream :
+  tcp_job_buf_size = max_msg_size /\ min_tcp_frame_src = min_tcp_frame /\
+  (forall n, go_largeClass n = (Z.of_N tcp_small_frame <? n)%Z).
+Proof. exact stream_constants. Qed.
+Print Assumptions source_constants_stream.
+
 (* pooled_stream_forgets: the framing stream is pooled across connections.  Whatever the previous
    connection left in it — replies still staged after a failed write, a sticky write error —
    tcpStream.reset makes the next connection start exactly as on a brand-new stream (what reset
@@ -188,6 +196,35 @@ Theorem leader_keeping_result_would_leak :
 Proof. exact leader_keeps_leaks. Qed.
 Print Assumptions leader_keeping_result_would_leak.
 
+(* chains_reply_goes_home: requests overlap on job-owned chains (wire-born: BindChain / ResetWire /
+   Finish, the chain never leaves its slab) and pooled chains (NewChain / Reset / PutChain).  For
+   every number of slabs and every interleaving of begin / write / end steps — a wire-born
+   request may begin whenever its SLAB is free, a pooled one whenever the pool hands a chain
+   out; nothing else is assumed: a reply written by request r reaches the transport of r; no
+   chain is used by two requests at once; no job-owned chain is ever in the pool *)
+Theorem chains_reply_goes_home : forall n l,
+  let s := ksteps (k_init n) l in
+  (forall r t b, In (r, t, b) (k_log s) -> t = tr_of r) /\
+  NoDup (map snd (k_busy s)) /\
+  (forall c, In c (k_pool s) -> n <= c /\ ~ In c (map snd (k_busy s))).
+Proof. exact chains_lemma. Qed.
+Print Assumptions chains_reply_goes_home.
+
+(* ... and the discipline is necessary: were a wire-born serve closed with PutChain, a pooled
+   request's reply would go to the slab's next client (computed witness) *)
+Theorem putting_owned_chain_would_leak :
+  k_log (ksteps_put_owned (k_init 1)
+           [KBeginWire 1 0; KEndWire 1; KBeginPool 2 0; KBeginWire 3 0; KWrite 2 [7%N]]) = [(2, 3%N, [7%N])].
+Proof. exact put_owned_leaks. Qed.
+Print Assumptions putting_owned_chain_would_leak.
+
+(* the source closes every strict-path serve (ServeRawInline, ServeRawReplay, serveWire) with a
+   deferred Finish() — the model's KEndWire *)
+Theorem wire_serves_finish :
+  wire_close_inline = [finish_name] /\ wire_close_replay = [finish_name] /\ wire_close_servewire = [finish_name].
+Proof. exact wire_serves_close_with_finish. Qed.
+Print Assumptions wire_serves_finish.
+
 (* ------------------------------------------------------------------ non-vacuity *)
 (* a reachable history with two leases of one slab: the second lease's client never sees the
    first reply; the datagram in the log is the first client's *)
@@ -226,3 +263,11 @@ Example shared_edit_example :
   let s := l_run2 0 true (l_init (mkMsg 99 [7]%N) [1; 2]%N) [LGo 0; LGo 0; LEdit 0 [42]%N; LGo 1; LGo 1; LEdit 1 [43]%N] in
   nth_error (l_heap s) 1 = Some (mkMsg 1 [7; 42]%N) /\ nth_error (l_heap s) 2 = Some (mkMsg 2 [7; 43]%N).
 Proof. vm_compute. repeat split. Qed.
+
+(* a pooled request overlapping two wire-born ones on one slab: every reply reaches its own client *)
+Example chains_example :
+  k_log (ksteps (k_init 1)
+           [KBeginWire 1 0; KBeginPool 2 1; KEndWire 1; KBeginWire 3 0; KWrite 2 [7%N]; KWrite 3 [8%N]; KEndPool 2; KEndWire 3;
+            KBeginPool 4 1; KWrite 4 [9%N]])
+  = [(4, 4%N, [9%N]); (3, 3%N, [8%N]); (2, 2%N, [7%N])].
+Proof. vm_compute. reflexivity. Qed.
